@@ -96,6 +96,11 @@ def _gen_seqs(rng, kind):
     else:
         alph = None
         letters = {"protein": PROT + ("BZX*" if rng.random() < 0.3 else ""), "nuc": NUC, "nuc_amb": NUC_AMB}[t]
+    prefix = None
+    if t in ("protein", "nuc_amb") and rng.random() < 0.2:
+        # general sequences over a leading part of the amino-acid / ambiguous-nucleotide alphabet (e.g. the 20 standard
+        # amino acids): the documented test "the program's alphabet extends the sequences' alphabet" holds for them
+        prefix = rng.choice([20, 20, 6, 23]) if t == "protein" else rng.choice([4, 9, 15])
     rows = []
     maxlen = rng.choice([12, 12, 12, 12, 85, 170])  # long sequences wrap in the FASTA files exchanged with the tool
     base = [rng.choice(letters) for _ in range(rng.randint(1, maxlen))]
@@ -109,7 +114,13 @@ def _gen_seqs(rng, kind):
         else:
             r = [rng.choice(letters) for _ in range(rng.randint(1, maxlen))]
         rows.append(r if t == "custom" else "".join(r))
-    return {"type": t, "rows": rows, "alphabet": alph, "container": rng.choice(["list", "list", "tuple", "generator"]),
+    if prefix is not None:
+        from biotite.sequence import NucleotideSequence, ProteinSequence
+
+        full = (ProteinSequence.alphabet if t == "protein" else NucleotideSequence.alphabet_amb).get_symbols()
+        allowed = [str(x) for x in full[:prefix]]
+        rows = ["".join(c if c in allowed else allowed[ord(c) % len(allowed)] for c in r) for r in rows]
+    return {"type": t, "rows": rows, "alphabet": alph, "prefix": prefix, "container": rng.choice(["list", "list", "tuple", "generator"]),
             # the sequences share one alphabet object, or carry equal alphabets that are distinct objects (what
             # unpickling, deepcopy or building each sequence with its own Alphabet(...) gives)
             "alph_objects": rng.choice(["shared", "shared", "shared", "equal_copies"])}
@@ -385,7 +396,14 @@ def _make_sequences(sspec, ctor_fault):
 
     t = sspec["type"]
     rows = sspec["rows"]
-    if t == "protein":
+    if sspec.get("prefix"):
+        from biotite.sequence import LetterAlphabet
+
+        full = (ProteinSequence.alphabet if t == "protein" else NucleotideSequence.alphabet_amb).get_symbols()
+        alph = LetterAlphabet(full[:sspec["prefix"]])
+        seqs = [GeneralSequence(LetterAlphabet(full[:sspec["prefix"]]) if sspec.get("alph_objects") == "equal_copies" else alph, r)
+                for r in rows]
+    elif t == "protein":
         seqs = [ProteinSequence(r) for r in rows]
     elif t == "nuc":
         seqs = [NucleotideSequence(r, ambiguous=False) for r in rows]
@@ -396,7 +414,7 @@ def _make_sequences(sspec, ctor_fault):
     else:
         alph = Alphabet(sspec["alphabet"])
         seqs = [GeneralSequence(alph, [sspec["alphabet"][c] for c in r]) for r in rows]
-    if sspec.get("alph_objects") == "equal_copies" and t != "custom":
+    if sspec.get("alph_objects") == "equal_copies" and t != "custom" and not sspec.get("prefix"):
         import copy
 
         seqs = [copy.deepcopy(s) if i % 2 else s for i, s in enumerate(seqs)]
